@@ -101,14 +101,27 @@ def respell(text, rng):
         return text
     if not all(_WORD.fullmatch(p) for p in parts[1:]):
         return text
-    how = rng.choice(["glue", "glue", "blanks", "plus", "zeros", "trail"])
+    how = rng.choice(["glue", "glue", "blanks", "plus", "zeros", "trail", "bare", "bare"])
     words = parts[1:]
+    if how == "bare":
+        # 0.5 -> .5, -0.75 -> -.75 (and a trailing point on integers: 35 -> 35.)
+        def bare(word):
+            letter, num = word[0], word[1:]
+            sign = num[0] if num[0] in "+-" else ""
+            digits = num[len(sign):]
+            if digits.startswith("0.") and len(digits) > 2:
+                return letter + sign + digits[1:]
+            if "." not in digits:
+                return letter + sign + digits + "."
+            return word
+        words = [bare(w) for w in words]
     if how == "plus":
         words = [w[0] + "+" + w[1:] if w[1] not in "+-" else w for w in words]
     elif how == "zeros":
         words = [w + ("00" if "." in w else ".0") for w in words]
     if how == "glue":
-        return parts[0] + "".join(words)
+        # (a blank stays in front of an E word: "35E-1" is an exponent for strtod-style readers)
+        return parts[0] + "".join((" " + w) if w[0] in "Ee" else w for w in words)
     if how == "blanks":
         return parts[0] + "  " + "   ".join(words)
     if how == "trail":
@@ -655,6 +668,9 @@ class MotionGen(object):
             * G_PER_MM
         b_out = rng.choice([max(0, lo2 - rng.randint(3, 20) * G_PER_MM), hi2 + 5 * G_PER_MM])
         a_out = rng.choice([0, 0, max(0, lo1 - rng.randint(3, 20) * G_PER_MM), hi1 + 4 * G_PER_MM])
+        if lo1 > 3 * G_PER_MM and rng.random() < 0.3:
+            # a sub-millimetre coordinate (written ".5" by some generators)
+            a_out = rng.choice([25, 13, 1, 40])
         first, second = ("Y", "X") if swap else ("X", "Y")
         pts = [{first: a_in, second: b_out}, {first: a_out, second: b_out},
                {first: a_out, second: b_in}]
@@ -664,7 +680,10 @@ class MotionGen(object):
                     not self.disc_safe(pt["X"], pt["Y"]) or pt["X"] > BED or pt["Y"] > BED:
                 return
         self.emit("G1 X%s Y%s" % (fmt_mm(pts[0]["X"]), fmt_mm(pts[0]["Y"])))
-        self.emit("G1 %s%s" % (first, fmt_mm(a_out)))
+        atxt = fmt_mm(a_out)
+        if atxt.startswith("0.") and rng.random() < 0.6:
+            atxt = atxt[1:]
+        self.emit("G1 %s%s" % (first, atxt))
         extrude = ""
         if gh.ret == 0 and gh.eabs and rng.random() < 0.5:
             gh.e += 10
